@@ -60,6 +60,15 @@ def explore(ctx):
     except Exception as e:
         ctx.broke('table-evaluation', 'driver skeleton', repr(e)[:500])
     try:
+        for stmt in clangdelta.manager_counter_writes():
+            ctx.violation('manager-rewrites-counter', f'{stmt} - the counter given on the command line does not reach the transformation unchanged '
+                          '(its own range check then sees another value)', {'statement': stmt})
+        for stmt in clangdelta.unit_handler_stops():
+            ctx.violation('parse-stopped-before-protocol', f'{stmt} - clang stops parsing when a consumer returns false from HandleTopLevelDecl: '
+                          'HandleTranslationUnit with the query / range clauses is never called', {'statement': stmt})
+    except Exception as e:
+        ctx.broke('table-evaluation', 'counter flow', repr(e)[:500])
+    try:
         r = coq.eval_terms('c19warn', IMPORTS, [], [
             'map (fun t => fst (fst t)) (filter (fun t => negb (oob_strict_with is_fatal (snd (fst t)) (snd t) || mem (fst (fst t)) Gen.ClangDelta.warn_supported)) Gen.ClangDelta.skeletons)'])
         for name in sorted(set(re.findall(r'"([^"]+)"', r[0]))):
